@@ -137,7 +137,9 @@ def r4(ctx):
             exempt = set()
             fe = ctx.sym(body).call_expr(f.term)
             for g in gi.all_guards():
-                if g.kind == "is" and g.name == "None" and g.a is not None and mentions(g.a, lambda s: s == fe or (s[0] == "await" and s[1] == fe)):
+                # process_request_from_idle() == None means "nothing to remember" (broadcast / confirm). A handler that
+                # merely produced no *response* (no-ack function codes) must still be remembered, so it is not exempt.
+                if f.term.callee.endswith("process_request_from_idle") and g.kind == "is" and g.name == "None" and g.a is not None and mentions(g.a, lambda s: s == fe or (s[0] == "await" and s[1] == fe)):
                     exempt |= body.region_of_edge(g.edge)
                 # nothing is stored, so nothing stale can be echoed (classify requires `last is Some`)
                 if g.kind == "is" and g.name == "None" and g.a is not None and g.a[0] == "field" and g.a[2] == "last_valid_request":
@@ -178,10 +180,68 @@ def r5(ctx):
         ctx.check(mentions_call(e[2][3], r"OutstationSession::write_unsolicited$"), "unsol-retry:same-response", "retry re-sends %s" % expr_str(e[2][3])[:160], body.where(b.idx))
 
 
+def r6(ctx):
+    """What is remembered is what was transmitted, for the request in hand."""
+    prog = ctx.prog
+    for d in TOP:
+        body = prog.abody(d)
+        sym = ctx.sym(body)
+        name = d.split("::")[-1]
+        ws = call_sites(body, r"OutstationSession::write_solicited$")
+        stores = []  # (expr of the stored value, dest expr)
+        for b, si, st in body.assigns():
+            if is_tracing(st.macros) or any(m.startswith("desugar") for m in (st.macros or ())):
+                continue
+            named = body.local_name(st.dest.local) == "response"  # (`result` is also the binding of the .await desugaring: not an anchor)
+            if not st.dest.proj and not named:
+                continue
+            de = sym.place_expr(st.dest) if st.dest.proj else ("var", "response")
+            if named or mentions_field(de, "last_valid_request") or mentions_field(de, "response"):
+                stores.append((sym.rvalue_expr(st.rv), de))
+        for c in call_sites(body, r"LastValidRequest::new$"):
+            e = sym.call_expr(c.term)
+            stores.append((e[2][2], ("field", ("var", "last_valid_request"), "response")))
+        k = 0
+        for w in ws:
+            we = sym.call_expr(w.term)
+            resp_arg = we[2][4]
+            if mentions_call(resp_arg, r"Response::empty_solicited$") and not mentions_call(resp_arg, FORMATTERS):
+                continue  # error responses are re-derived from the repeated request itself, never echoed from memory
+            k += 1
+            used = [s for s in stores if mentions(s[0], lambda x: x == we)]
+            ctx.check(bool(used), "remember-transmitted@%s#%d" % (name, k), "the response returned by write_solicited (with the transmitted IIN / CON) is what is stored for echoing", body.where(w.idx), bad_detail="the value returned by write_solicited is dropped: what is remembered for echoing is the response *before* transmission (without the dynamic IIN bits / forced CON), so an echo differs from the fragment that was sent")
+    # every request-bearing non-READ arm records the request (seq + digest of THIS request), response or not
+    cl = lambda x: mentions_call(x, r"OutstationSession::classify$")
+    for d in ("OutstationSession::process_request_from_idle", "OutstationSession::wait_for_unsolicited_confirm"):
+        body = prog.abody(d)
+        sym = ctx.sym(body)
+        name = d.split("::")[-1]
+        for var in ("NewNonRead",):
+            arms = arm_edges(ctx, body, g_is(cl, var))
+            if len(arms) != 1:
+                raise AnchorError("%s: %s arm" % (d, var))
+            region = region_of(body, arms[0])
+            news = [c for c in call_sites(body, r"LastValidRequest::new$") if c.idx in region]
+            ctx.check(len(news) == 1, "record:%s@%s:site" % (var, name), "the %s arm builds the LastValidRequest" % var, body.where(arms[0].edge[1]))
+            errs = error_exit_blocks(body)
+            for c in news:
+                e = sym.call_expr(c.term)
+                ctx.check(mentions_field(e[2][0], "seq") or mentions_name(e[2][0], "seq"), "record:%s@%s:seq" % (var, name), "seq = %s" % expr_str(e[2][0])[-50:], body.where(c.idx))
+                ctx.check(mentions(e[2][1], lambda s: s[0] == "variant" and s[2] == var), "record:%s@%s:hash" % (var, name), "digest = the one classify computed for this request", body.where(c.idx))
+                ctx.check(mentions_call(e[2][2], r"OutstationSession::handle_non_read$"), "record:%s@%s:response" % (var, name), "response = what handle_non_read produced", body.where(c.idx))
+                # unconditional inside the arm: every non-error way out of the arm passes it
+                exits = sorted({s_ for b_ in region for s_ in body.cfg[0][b_] if s_ not in region})
+                rets = [r for r in return_blocks(body)]
+                tgt = exits + [r for r in rets if r in region]
+                ok = all(not body.can_reach(arms[0].edge[1], t_, removed_blocks={c.idx} | errs) for t_ in tgt) if tgt else False
+                ctx.check(ok, "record:%s@%s:unconditional" % (var, name), "recorded on every non-error path through the arm (also when no response is produced)", body.where(c.idx), bad_detail="the %s arm of %s can complete without recording the request: a retransmitted no-response request (DIRECT_OPERATE_NR, FREEZE_NR...) is executed again" % (var, name))
+
+
 RULES = [
     ("C05.R1", "T2-region", "RepeatNonRead arms reach no handler / callback", r1),
     ("C05.R2", "T2", "Repeat* only under seq AND digest equality with the stored request", r2),
     ("C05.R3", "T8", "what is echoed is the stored response", r3),
     ("C05.R4", "T3", "echo freshness: tx-buffer formatter -> next wait passes a last_valid_request update", r4),
     ("C05.R5", "T5/T8", "repeat_* rewrite only the header; unsolicited retry re-sends the same response", r5),
+    ("C05.R6", "T8/T3", "what is remembered is the transmitted response, recorded for every executed request", r6),
 ]
